@@ -38,7 +38,7 @@ struct Base {
 fn base_of(src: &str, lib: bool) -> Option<Base> {
     let (t, _) = api::parse_simple(src, lib, false).ok()?.ok()?;
     let ix = tree::index(&t).ok()?;
-    let text = t.get_str(vec![ix.nodes[0].node.clone()]).unwrap_or("").to_string();
+    let text = tree::text_from_leaves(&t, &ix)?;
     let lay = crate::util::layout::layout(&ix, text.len());
     let skel = tree::skeleton_nows(&t);
     let descr = ix
